@@ -67,21 +67,35 @@ def run(with_seeded=True):
     log("[selftest] BinaryFormatTrace, one payload byte flipped in case %s: %s" % (target, "rejected" if hit else "NOT rejected"))
     ok &= hit
     # --- seeded changes -------------------------------------------------------------------
+    # every change under seeded/ is tried in its own scratch box (tools/try_seed_box.py: a worktree of /repo with
+    # the patch applied and a copy of /verif pointed at it), four boxes at a time; /repo itself is not touched
     if with_seeded:
+        import concurrent.futures as cf
         sdir = os.path.join(VERIF, "seeded")
+        jobs = []
         for name in sorted(os.listdir(sdir)) if os.path.isdir(sdir) else []:
             meta_p = os.path.join(sdir, name, "meta.json")
             if not os.path.exists(meta_p):
                 continue
-            meta = json.load(open(meta_p))
-            checks = meta.get("caught_by", [])
+            checks = json.load(open(meta_p)).get("caught_by", [])
             if not checks:
                 log("[selftest] seeded/%s: no check is claimed to catch it (recorded miss)" % name)
                 continue
-            p = subprocess.run(["python3", os.path.join(VERIF, "tools", "try_seed.py"), os.path.join(sdir, name, "patch.diff")] + checks,
+            jobs.append((name, checks))
+
+        def one(job):
+            name, checks = job
+            p = subprocess.run(["python3", os.path.join(VERIF, "tools", "try_seed_box.py"), os.path.join(sdir, name, "patch.diff")] + checks,
                                stdout=subprocess.PIPE, stderr=subprocess.STDOUT, text=True)
-            res = json.loads(p.stdout.strip().splitlines()[-1]) if p.returncode == 0 else {}
-            caught = all(res.get(c, {}).get("rc") == 1 for c in checks)
-            log("[selftest] seeded/%s: %s" % (name, "caught by " + ",".join(checks) if caught else "NOT caught: %s" % res))
-            ok &= caught
+            try:
+                res = json.loads(p.stdout.strip().splitlines()[-1])
+            except Exception:
+                res = {"error": p.stdout[-500:]}
+            return name, checks, res
+
+        with cf.ThreadPoolExecutor(max_workers=4) as ex:
+            for name, checks, res in ex.map(one, jobs):
+                caught = all(res.get(c, {}).get("rc") == 1 for c in checks)
+                log("[selftest] seeded/%s: %s" % (name, "caught by " + ",".join(checks) if caught else "NOT caught: %s" % res))
+                ok &= caught
     return 0 if ok else 1
